@@ -12,6 +12,7 @@
    The empty paragraph (n = 0) is covered by empty_paragraph_calls / empty_paragraph_wrap.
    NOT proved: "Advance = sum of the glyph advances" at return time (false: finding F6; advance_is_sum_partial states it at
    the time of the cut). *)
+From TV Require Import Model.WrapBuf Spec.WrapBuf Proofs.WrapBuf.
 From TV Require Import Model.Wrap Spec.Wrap Spec.WrapCut Proofs.Wrap Proofs.WrapCut Proofs.WrapLines Proofs.WrapTotal Proofs.WrapStore Proofs.WrapEmpty.
 
 (* best_is_prefix_cut (partial): from any state satisfying the line invariant, processBreakOption keeps the invariant
@@ -317,3 +318,35 @@ Example empty_paragraph_example :
   runs_ok [] 0 /\ zlen [7] - 1 = 0
   /\ exists w', run_calls (prepare (w_zero [[]]) cfg_zero [7] [] 0 0) [10; 10] = Ok (w', [(mkWrapped None 0 0, true); (mkWrapped None 0 0, true)]).
 Proof. split; [split; [reflexivity|constructor]|]. split; [reflexivity|]. vm_compute. eexists. reflexivity. Qed.
+
+(* ---- the line storage of the wrapper (Model/WrapBuf.v, Proofs/WrapBuf.v) ------------------------------------------ *)
+
+(* line_storage_no_panic: the bookkeeping of wrapBuffer (shared array of capacity newcap, lineUsed, heap fallback of
+   markCandidateBest, finalizeBest) never panics: for EVERY buffer state, capacity after reset, number of lines and
+   sequence of candidateAppend / markCandidateBest(any suffixes) / candidateSave / candidateRestore operations per line
+   (each line bracketed by startLine ... finalizeBest, as WrapNextLine does), the paragraph runs to the end and returns one
+   result per line. *)
+Theorem line_storage_no_panic : forall b newcap lines,
+  exists b' rs, run_para b newcap lines = Ok (b', rs) /\ length rs = length lines.
+Proof. exact para_no_panic. Qed.
+Print Assumptions line_storage_no_panic.
+
+(* returned_lines_not_overwritten: same quantification; at the end of the paragraph every line that was handed out as a
+   view of the shared array still reads exactly the content it had when finalizeBest returned it (no later line was written
+   over it), the views lie one after the other from offset 0 up to lineUsed, lineUsed <= cap, and the capacity is unchanged
+   within the paragraph. *)
+Theorem returned_lines_not_overwritten : forall b newcap lines b' rs,
+  run_para b newcap lines = Ok (b', rs) ->
+  views_intact (bf_line b') rs = true /\ views_ordered 0 rs (bf_used b') = true /\ used_ok b' = true
+  /\ length (bf_line b') = newcap.
+Proof. exact para_views_intact. Qed.
+Print Assumptions returned_lines_not_overwritten.
+
+(* non-vacuity: capacity 4, three lines of two pieces: the first two are views at offsets 0 and 2, the third does not fit
+   any more and lives on the heap (lineExhausted), lineUsed stays 4 *)
+Example line_storage_example :
+  let line (a b : Z) := [OSave; OMark [a]; OSave; OAppend a; OMark [b]] in
+  exists b' rs, run_para (mkBuf [] 0 false [] [] BNone false) 4 [line 1 2; line 3 4; line 5 6]%Z = Ok (b', rs)
+    /\ map lr_view rs = [Some (0, 2); Some (2, 2); None]%nat /\ map lr_line rs = [Some [1; 2]; Some [3; 4]; Some [5; 6]]%Z
+    /\ bf_used b' = 4%nat /\ bf_exh b' = true.
+Proof. vm_compute. eexists _, _. repeat split; reflexivity. Qed.
